@@ -1,2 +1,3 @@
 //! Finite generators for the shared domains of DESIGN §2.
 pub mod net;
+pub mod pt;
